@@ -409,7 +409,9 @@ func runWorkers(bin string, p *propDef, mode, tier string, seed uint64, runs int
 	rdir := filepath.Join(buildDir, "run", fmt.Sprintf("%s-%08x", p.ID, uint32(os.Getpid())*2654435761+uint32(time.Now().UnixNano()))) // fixed length: paths travel inside simulated messages
 	os.RemoveAll(rdir)
 	must(os.MkdirAll(rdir, 0o755))
-	defer os.RemoveAll(rdir)
+	if os.Getenv("VERIF_KEEP") == "" {
+		defer os.RemoveAll(rdir)
+	}
 	results := make([]*WorkerResult, workers)
 	errs := make([]error, workers)
 	var wg sync.WaitGroup
